@@ -10,7 +10,7 @@ PROPS_MODULES = ["C17.Props"]
 RUN_MODULE = "C17.Run"
 RUN_FN = "run_case"
 HARNESS_BIN = "c17"
-HARNESS_BINS = ["c17"]
+HARNESS_BINS = ["c17", "c17bb"]
 SHRINK_KEEP = ("sni",)
 CLAIMED = True
 RULE = ("cases: histories of 1-14 add / remove / replace over a committed pool of 10 certificates (openssl; overlapping "
@@ -24,7 +24,7 @@ ASSUMPTIONS = [
     "PEM/x509/key parsing and SHA-256 are oracles: operations carry the parsed (fingerprint, names, expiration); the driver checks them against the real parser for every pool certificate",
     "certificate names with a well-formed /regex/ segment are outside the generated family (the shared trie would treat them as regexes; C04 finding)",
     "HashMap-backed store and index are modelled as association lists with unique keys",
-    "the rustls handshake itself (ResolvesServerCert::resolve glue, default certificate) and the 421 call site are not exercised in-process",
+    "the rustls handshake (ResolvesServerCert::resolve glue, default certificate) is exercised by the black-box tier only (real worker, real handshakes, certificate identified by fingerprint); the 421 call site is not exercised",
 ]
 TRUSTED = ["translator props/c17.py:translate pins add-before-remove and the idempotent short-circuit in replace_certificate, the stable sort + last() choice and the remove/insert re-pointing in lib/src/tls.rs"]
 
@@ -159,6 +159,31 @@ def gen_cases(rng, tier):
     return out
 
 
+def extra_stage(tier, rng, work):
+    """black-box tier: the same histories through a real worker (command channel) and real TLS handshakes"""
+    n = {"quick": 60, "thorough": 1500}.get(tier, 60)
+    cases = corpus_cases() + [history_case(rng, "bb%d" % i, "plain" if i % 4 else "case") for i in range(n)]
+    outs, problems = vlib.run_harness("c17bb", cases, os.path.join(work, "bb"), "release", shards=4, timeout=1200)
+    viols, handshakes, missing = [], 0, 0
+    for c in cases:
+        o = outs.get(c.id)
+        if o is None or o["panic"] is not None:
+            missing += 1
+            viols.append((c, "blackbox-crash", "the black-box driver did not finish the case: %s" % (o["panic"] if o else "no output")))
+            continue
+        if any(nn.startswith("invalid-case") for nn in o["notes"]):
+            missing += 1
+            continue
+        handshakes += sum(1 for ob in o["obs"] if ob[:1] == ["fp"])
+        for (vc, vt) in o["viol"]:
+            viols.append((c, vc, vt))
+    fails = list(problems)
+    if missing > len(cases) // 4:
+        fails.append("black-box tier: %d of %d cases could not be run" % (missing, len(cases)))
+    return dict(failures=fails, viols=viols,
+                coverage=dict(blackbox_cases=len(cases) - missing, blackbox_handshakes=handshakes))
+
+
 def corpus_cases():
     d = os.path.join(vlib.ROOT, "corpus", ID)
     out = []
@@ -200,5 +225,6 @@ LEVEL_TEXT = ("Machine-checked proof (Coq 8.16) over an executable model of Cert
               "certificate pool against the extracted model, with the property's own oracle (exact over wildcard, "
               "longest-lived, loaded, covering) evaluated on the implementation.")
 LEVEL_NOTE = ("Trusted: Coq kernel; extraction and ocaml/driver.ml for the correspondence only; certificate parsing and "
-              "SHA-256 are oracles; the rustls handshake and the 421 call site are not exercised in-process.")
+              "SHA-256 are oracles; the handshake is tied to the resolver by a black-box tier (real worker, real TLS "
+              "handshakes) and not by proof; the 421 call site of the strict-SNI predicate is not exercised.")
 TECHNIQUE = "Rocq/Coq proof over an executable Gallina model + differential correspondence (extracted OCaml vs real crate)"
